@@ -227,6 +227,7 @@ void run_fwd_case(Ctx &ctx, int64_t kase, Rng &r, const DomInfo &d) {
   std::map<int64_t, std::vector<crab::checker::check_kind>> verdicts;
   long nontop = 0, blocks_visited = 0, execs = 0, cuts = 0;
   bool violated = false;
+  uint64_t case_salt = hash_str(str(p)) >> 7; // no extra PRNG draw: case numbers keep denoting the same programs
   try {
     crab::analyzer::live_and_dead_analysis<z_cfg_ref_t> live(cfg);
     if (use_live) live.exec();
@@ -253,7 +254,14 @@ void run_fwd_case(Ctx &ctx, int64_t kase, Rng &r, const DomInfo &d) {
     }
     tick_count() = 0;
     tick_limit() = 20000;
-    an.run(fn.blocks[fn.entry].name, init, assumptions);
+    // both public entry points of the analyzer: run(init) starts at cfg.entry() (the API the
+    // inter-procedural and backward analyzers use), run(entry, init, assumptions) is the general one
+    if (assumptions.empty() && (case_salt & 1)) {
+      an.run(init);
+      ctx.count("runs_through_run_init_api");
+      config += " api=run(init)";
+    } else
+      an.run(fn.blocks[fn.entry].name, init, assumptions);
     tick_limit() = 0;
     ctx.count("ticks_total", tick_count());
     if (tick_count() > ctx.counters["ticks_max"]) ctx.counters["ticks_max"] = tick_count();
